@@ -61,7 +61,9 @@ func dynFocusSchema(r *rand.Rand) *schema.BodySchema {
 			Blocks:     map[string]*schema.BlockSchema{"static": inner()},
 		},
 		DependentBody: map[schema.SchemaKey]*schema.BodySchema{},
+		MinItems:      3, // several blocks per file: resolved and unresolved dependent bodies side by side
 	}
+	res.Body.Blocks["static"].MinItems = 1
 	for _, v := range []string{"aws", "gcp"} {
 		dk := schema.DependencyKeys{Labels: []schema.LabelDependent{{Index: 0, Value: v}}}
 		db := &schema.BodySchema{
@@ -74,7 +76,32 @@ func dynFocusSchema(r *rand.Rand) *schema.BodySchema {
 		res.DependentBody[schema.NewSchemaKey(copyKeys(dk))] = db
 		depKeyIndex[res] = append(depKeyIndex[res], dk)
 	}
-	return &schema.BodySchema{Blocks: map[string]*schema.BlockSchema{"resource": res}}
+	// a block type whose dependent bodies are selected by three attribute values at once
+	svc := &schema.BlockSchema{
+		Body: &schema.BodySchema{Attributes: map[string]*schema.AttributeSchema{
+			"engine": {IsOptional: true, IsDepKey: true, Constraint: schema.LiteralType{Type: cty.String}},
+			"region": {IsOptional: true, IsDepKey: true, Constraint: schema.LiteralType{Type: cty.String}},
+			"tier":   {IsOptional: true, IsDepKey: true, Constraint: schema.LiteralType{Type: cty.String}},
+			"title":  {IsOptional: true, Constraint: schema.LiteralType{Type: cty.String}},
+		}},
+		DependentBody: map[schema.SchemaKey]*schema.BodySchema{},
+	}
+	for _, vals := range [][3]string{{"pg", "eu", "v1"}, {"my", "us", "v2"}} {
+		dk := schema.DependencyKeys{Attributes: []schema.AttributeDependent{
+			{Name: "tier", Expr: schema.ExpressionValue{Static: cty.StringVal(vals[2])}},
+			{Name: "engine", Expr: schema.ExpressionValue{Static: cty.StringVal(vals[0])}},
+			{Name: "region", Expr: schema.ExpressionValue{Static: cty.StringVal(vals[1])}},
+		}}
+		svc.DependentBody[schema.NewSchemaKey(copyKeys(dk))] = &schema.BodySchema{
+			Attributes: map[string]*schema.AttributeSchema{
+				"replicas": {IsOptional: true, Constraint: schema.LiteralType{Type: cty.Number}},
+				"storage":  {IsRequired: true, Constraint: schema.LiteralType{Type: cty.String}},
+			},
+			Blocks: map[string]*schema.BlockSchema{"rule": inner()},
+		}
+		depKeyIndex[svc] = append(depKeyIndex[svc], dk)
+	}
+	return &schema.BodySchema{Blocks: map[string]*schema.BlockSchema{"resource": res, "svc": svc}}
 }
 
 func genType(r *rand.Rand, d int) cty.Type {
@@ -865,9 +892,11 @@ func (g *cfgGen) attr(n string, as *schema.AttributeSchema, d int) string {
 		}
 		if f, ok := g.forced[n]; ok && g.r.Intn(5) > 0 {
 			txt = f
-		} else if g.r.Intn(6) == 0 {
-			// values the evaluator reduces to something that is not a plain known string
-			txt = pick(g.r, []string{`true ? null : "v1"`, "null", `"v${1}"`, "[]", "7", `upper("v1")`})
+		}
+		if g.r.Intn(5) == 0 {
+			// values the evaluator reduces to something that is not a plain known string: typed null, null,
+			// an interpolation that evaluates, non-strings, and values it cannot compute (function call, variable)
+			txt = pick(g.r, []string{`true ? null : "v1"`, "null", `"v${1}"`, "[]", "7", `upper("v1")`, `"${var.x}/v1"`, `lower("V1")`, `"v1${path.module}"`})
 		}
 	}
 	fmt.Fprintf(&g.sb, "%s%s = %s\n", g.indent(d), n, txt)
